@@ -27,4 +27,17 @@ PROPS = {
         'level_note': 'Trusts the generator table (DESIGN Appendix A) — each admissible-set widening is an Annex A ambiguity documented there; K6 is attributed only when the K6 model reproduces the observed multiset exactly.',
         'design_ref': '5 / C02',
     },
+    'C16': {
+        'title': 'traversal laws',
+        'rule': 'one case = one source text of the shared tree workload; non-trivial = accepted tree on which event balance, Enter==Iter, '
+                'sub-iteration slices, the Debug field-order witness, unwrap_node!/unwrap_locate! and get_str_trim were all evaluated; distinct by hash of (text, mode)',
+        'evaluations_key': 'inputs',
+        'floors': {'quick': {'trees': 2000, 'pp_trees': 600, 'sub_iterations_checked': 200000, 'debug_witness_items': 800000, 'unwrap_checks': 150000,
+                             'get_str_trim_checks': 120000},
+                   'thorough': {'trees': 50000, 'pp_trees': 15000}},
+        'technique': 'runtime monitor: stack-discipline checker over the event stream with pointer identity, slice comparison of sub-iterations, derived-Debug rendering as independent witness of field order',
+        'level_text': 'Every tree (syntax trees of both grammars and the preprocessor\'s own pp_parser trees) produced under the shared workload is traversed by a monitor that checks the traversal laws against each other and against the derived Debug rendering, which does not use the traversal code. Held on observed trees.',
+        'level_note': 'Trusts mon_iter.rs; node identity is by address (self-tested at start-up); the Debug witness covers struct-kind nodes and leaves (generic wrappers are transparent in both views).',
+        'design_ref': '5 / C16',
+    },
 }
